@@ -13,6 +13,16 @@ namespace Penguin.Mux
 theorem lookup_cons (k' : Nat) (v : Slot) (m : List (Nat × Slot)) (k : Nat) :
     lookup ((k', v) :: m) k = if k' = k then some v else lookup m k := rfl
 
+theorem lookup_mem (m : List (Nat × Slot)) (k : Nat) (v : Slot) (h : lookup m k = some v) : (k, v) ∈ m := by
+  induction m with
+  | nil => simp at h
+  | cons p m ih =>
+    obtain ⟨k', v'⟩ := p
+    rw [lookup_cons] at h
+    split at h
+    · rename_i hk; subst hk; simp only [Option.some.injEq] at h; subst h; simp
+    · exact List.mem_cons_of_mem _ (ih h)
+
 theorem lookup_erase_self (m : List (Nat × Slot)) (k : Nat) : lookup (erase m k) k = none := by
   induction m with
   | nil => rfl
@@ -73,6 +83,7 @@ theorem enq_outq (e : EP) (m : Msg) :
 
 @[simp] theorem enq_park (e : EP) (m : Msg) : (e.enq m).park = e.park := by
   unfold EP.enq; split <;> rfl
+@[simp] theorem modObj_dead (e : EP) (i : Nat) (f : Obj → Obj) : (e.modObj i f).dead = e.dead := rfl
 @[simp] theorem modObj_park (e : EP) (i : Nat) (f : Obj → Obj) : (e.modObj i f).park = e.park := rfl
 @[simp] theorem modObj_flows (e : EP) (i : Nat) (f : Obj → Obj) : (e.modObj i f).flows = e.flows := rfl
 @[simp] theorem modObj_outq (e : EP) (i : Nat) (f : Obj → Obj) : (e.modObj i f).outq = e.outq := rfl
